@@ -4,12 +4,13 @@ from cryptography import x509
 from cryptography.x509.oid import NameOID
 from cryptography.hazmat.primitives import hashes, serialization
 from cryptography.hazmat.primitives.asymmetric import rsa
-NAMES = ['idpA', 'idpA2', 'idpAenc', 'idpB', 'spX', 'spXenc1', 'spXenc2', 'spY', 'mallory', 'mdsigner', 'idpAexp']
+NAMES = ['idpA', 'idpA2', 'idpAenc', 'idpB', 'spX', 'spXenc1', 'spXenc2', 'spY', 'mallory', 'mdsigner', 'idpAexp',
+         'rsa1024', 'rsa1025', 'rsa2047', 'rsa3072']       # rsaNNNN: modulus of NNNN bits (also lengths that are no multiple of 8)
 d = os.path.join(os.path.dirname(os.path.abspath(__file__)), '..', 'keys')
 for n in NAMES:
     kf = os.path.join(d, n + '.key'); cf = os.path.join(d, n + '.crt')
     if os.path.exists(kf): continue
-    k = rsa.generate_private_key(65537, 2048)
+    k = rsa.generate_private_key(65537, int(n[3:]) if n.startswith('rsa') else 2048)
     name = x509.Name([x509.NameAttribute(NameOID.COMMON_NAME, 'vp-' + n)])
     c = (x509.CertificateBuilder().subject_name(name).issuer_name(name).public_key(k.public_key())
          .serial_number(x509.random_serial_number())
